@@ -801,3 +801,134 @@ func FamParity(seed int64, stream bool, scenario int) SysRecord {
 	}
 	return rec
 }
+
+// FamEndInEnum — a link of a hub ends (its peer hangs up) while the application is in the middle of an
+// enumeration whose callback is waiting in a call: on the OTHER link (variant 0) or on the link that ends
+// (variant 1). Link must return promptly with the read error in both.
+func FamEndInEnum(seed int64, variant int) SysRecord {
+	what := "a link ends while a ForRemotes callback waits in a call on " + map[int]string{0: "another link", 1: "that link"}[variant%2]
+	rec := SysRecord{Family: "linkend", Config: "json-raw/message " + what, Seed: seed}
+	w := newWorld()
+	c := jsonRawCodec()
+	hub := NewSysNode[json.RawMessage](w, "H")
+	spokes := []*SysNode[json.RawMessage]{NewSysNode[json.RawMessage](w, "S0"), NewSysNode[json.RawMessage](w, "S1")}
+	links := make([]*SysLink[json.RawMessage], 2)
+	for i := range spokes {
+		links[i] = Connect(w, hub, spokes[i], c, false, -1, seed+int64(i))
+		if !WaitRemotes(hub, i+1) || !WaitRemotes(spokes[i], 1) {
+			rec.Notes = append(rec.Notes, "link did not come up")
+			return rec
+		}
+	}
+	ctx, cancel := context.WithTimeout(context.Background(), 10*time.Second)
+	defer cancel()
+	enumDone := make(chan error, 1)
+	go func() {
+		first := true
+		enumDone <- hub.Reg.ForRemotes(func(id string, rem sysRemote) error {
+			if first {
+				first = false
+				rem.Gate(ctx, 970) // waits until the gate opens or its link ends
+			}
+			return nil
+		})
+	}()
+	busy := -1
+	waitUntil(func() bool {
+		for _, e := range w.Events() {
+			if e.Kind == "inv" && e.Method == "Gate" && e.Tag == 970 {
+				busy = int(e.Node[1] - '0')
+				return true
+			}
+		}
+		return false
+	}, 3*time.Second)
+	if busy < 0 {
+		rec.Notes = append(rec.Notes, "the enumeration's call never reached a spoke")
+		close(w.gate(970))
+		return rec
+	}
+	victim := busy
+	if variant%2 == 0 {
+		victim = 1 - busy
+	}
+	links[victim].CloseTransport(io.EOF) // the peer of that link hangs up
+	select {
+	case err := <-links[victim].ErrA:
+		rec.Calls = append(rec.Calls, SysCall{Tag: 971, Method: "LinkReturn", Ret: "returned", Err: errText(err), Extra: what, Done: true})
+	case <-time.After(3 * time.Second):
+		rec.Calls = append(rec.Calls, SysCall{Tag: 971, Method: "LinkReturn", Ret: "DID-NOT-RETURN within 3 s", Extra: what})
+	}
+	close(w.gate(970))
+	select {
+	case <-enumDone:
+	case <-time.After(3 * time.Second):
+		rec.Notes = append(rec.Notes, "the enumeration did not finish after its call could complete")
+	}
+	for _, l := range links {
+		l.CancelA()
+		l.CancelB()
+		l.CloseTransport(io.EOF)
+	}
+	return rec
+}
+
+// FamSharedHooks — several links of one registry are established at the same time and are all given the same
+// LinkHooks value, one of whose members is unset (both are optional): the links only read it.
+func FamSharedHooks(seed int64) SysRecord {
+	rec := SysRecord{Family: "sharedhooks", Config: "json-raw", Seed: seed}
+	w := newWorld()
+	c := jsonRawCodec()
+	hub := NewSysNode[json.RawMessage](w, "H")
+	setConnect := seed%2 == 0
+	hub.SharedHooks = &rpc.LinkHooks{}
+	if setConnect {
+		hub.SharedHooks.OnClientConnect = func(id string) { w.log(SysEvent{Node: "H", Kind: "hook", Method: "link-connect", Remote: id}) }
+	} else {
+		hub.SharedHooks.OnClientDisconnect = func(id string) { w.log(SysEvent{Node: "H", Kind: "hook", Method: "link-disconnect", Remote: id}) }
+	}
+	const n = 4
+	spokes := make([]*SysNode[json.RawMessage], n)
+	links := make([]*SysLink[json.RawMessage], n)
+	var wg sync.WaitGroup
+	for i := range spokes {
+		spokes[i] = NewSysNode[json.RawMessage](w, fmt.Sprintf("S%d", i))
+		wg.Add(1)
+		go func() {
+			defer wg.Done()
+			links[i] = Connect(w, hub, spokes[i], c, i%2 == 1, -1, seed+int64(i))
+		}()
+	}
+	wg.Wait()
+	if !WaitRemotes(hub, n) {
+		rec.Notes = append(rec.Notes, "links did not come up")
+	}
+	ctx, cancel := context.WithTimeout(context.Background(), 5*time.Second)
+	defer cancel()
+	for i, s := range spokes {
+		WaitRemotes(s, 1)
+		for _, rem := range s.Remotes() {
+			if v, err := rem.EchoInt(ctx, 990+i, int64(i)); err != nil || v != int64(i) {
+				rec.Notes = append(rec.Notes, fmt.Sprintf("call of spoke %d returned (%v, %v)", i, v, err))
+			}
+		}
+	}
+	for _, l := range links {
+		l.CancelA()
+		l.CancelB()
+		l.CloseTransport(io.EOF)
+		for _, ch := range []chan error{l.ErrA, l.ErrB} {
+			select {
+			case <-ch:
+			case <-time.After(3 * time.Second):
+				rec.Notes = append(rec.Notes, "LINK-DID-NOT-RETURN")
+			}
+		}
+	}
+	waitUntil(func() bool { return len(hub.Remotes()) == 0 }, 2*time.Second)
+	if (setConnect && hub.SharedHooks.OnClientDisconnect != nil) || (!setConnect && hub.SharedHooks.OnClientConnect != nil) {
+		rec.Notes = append(rec.Notes, "HOOKS-VALUE-WRITTEN panrpc wrote to the LinkHooks value the application passed to four concurrently established links (an unset member is now set): an unsynchronised write to state shared between links")
+	}
+	rec.Events = w.Events()
+	return rec
+}
